@@ -46,6 +46,9 @@ type CliFresh struct {
 	Debug    bool     `json:"debug_flag"`
 	Sim      bool     `json:"seeded_entropy_binary,omitempty"`
 	InitSeed uint64   `json:"init_seed,omitempty"`
+	Argv0    string   `json:"argv0,omitempty"`     // the command is invoked through a symlink of this name
+	SrcMtime int64    `json:"src_mtime,omitempty"` // modification time given to the source file (unix seconds)
+	Wrap     []string `json:"wrap,omitempty"`
 }
 
 type cliOutcome struct {
@@ -69,6 +72,10 @@ func (c *simCtx) runCli(cf *CliFresh) cliOutcome {
 	if cf.Abs {
 		sa, da = sp, filepath.Join(dir, cf.DstName)
 	}
+	if cf.SrcMtime != 0 {
+		t := time.Unix(cf.SrcMtime, 0)
+		os.Chtimes(sp, t, t)
+	}
 	argv := []string{c.b.Cli}
 	env := cf.Env
 	if cf.Sim {
@@ -76,8 +83,17 @@ func (c *simCtx) runCli(cf *CliFresh) cliOutcome {
 		// one P and no background GC: otherwise sync.Pool hits/misses shift the entropy draw count
 		env = append(append([]string{}, cf.Env...), fmt.Sprintf("VERIFSIM_INIT_SEED=%d", cf.InitSeed), "GOMAXPROCS=1", "GOGC=off")
 	}
+	if cf.Argv0 != "" { // same binary under another name
+		ln := filepath.Join(dir, cf.Argv0)
+		if err := os.Symlink(argv[0], ln); err == nil {
+			argv[0] = ln
+		}
+	}
 	if cf.Debug {
 		argv = append(argv, "-d")
+	}
+	if len(cf.Wrap) > 0 {
+		argv = append(append([]string{}, cf.Wrap...), argv...)
 	}
 	argv = append(argv, sa, da)
 	pr := runProc(workerWatchdog, dir, baseEnv(env...), argv...)
@@ -293,7 +309,8 @@ func runC10(tierName string) int {
 				tag = 301
 			}
 			r := NewRNG(deriveSeed(baseSeed, tag, uint64(jb.pi)*64+uint64(jb.k)))
-			cf := &CliFresh{Sim: jb.sim, InitSeed: r.U64() % 1000000007, Src: base64.StdEncoding.EncodeToString(pool[jb.pi].Src), SrcName: pick(r, []string{"in.nas", "src.asm", "a.nas", "prog.nas"}), DstName: pick(r, destNames), Abs: r.Chance(1, 2), Env: drawProcEnv(r, true), Debug: r.Chance(1, 5)}
+			cf := &CliFresh{Sim: jb.sim, InitSeed: r.U64() % 1000000007, Src: base64.StdEncoding.EncodeToString(pool[jb.pi].Src), SrcName: pick(r, []string{"in.nas", "src.asm", "a.nas", "prog.nas"}), DstName: pick(r, destNames), Abs: r.Chance(1, 2), Env: drawProcEnv(r, true), Debug: r.Chance(1, 5),
+				Argv0: pick(r, []string{"", "", "nask", "gosk-2.0", "as"}), SrcMtime: int64(r.Intn(2000000000)) + 1, Wrap: pick(r, procWraps)}
 			cfs[i] = cf
 			outs[i] = c.runCli(cf)
 		})
@@ -357,7 +374,7 @@ func runC10(tierName string) int {
 			res := c.runSpec(spec)
 			v, st, err := evalHistorySafe(spec, res, F, classes)
 			if err != nil {
-				infraFail("history seed %d: %v", seed, err)
+				infraFail("history seed %d: %v (uid=%d shell=%q wrap=%v env=%v stdout=%s)", seed, err, spec.Uid, spec.Shell, spec.Wrap, spec.Env, clip(res.Proc.Stdout, 200))
 			}
 			atomic.AddInt64(&done, 1)
 			A.Lock()
